@@ -143,6 +143,12 @@ func (dec *Decoder) Decode() (*Document, error) {
 		if indent-1 >= len(indents) {
 			// This means the file is not valid. I have seen it in very rare
 			// cases. See full explanation in AllowInvalidIndents.
+			if dec.AllowInvalidIndents && len(indents) == 0 {
+				// There is no node at all that this line could be placed under.
+				return nil, fmt.Errorf("line %d: indent is too large - missing parent?: %s",
+					lineNumber, line)
+			}
+
 			if dec.AllowInvalidIndents {
 				indent = len(indents)
 			} else {
